@@ -10,7 +10,7 @@ CHECKS = {
          "The reference codec in harness/common/src/refs/codec.rs (unit-tested against the documented VarInt vectors) is trusted; string contents are boundary families, not all strings.", "DESIGN.md §4 C09"),
  "C11": ("netsim", "exploration",
          "bounded-exhaustive enumeration of (server id, secret, key) triples against an independent SHA-1 / two's-complement printer, with digest-class vacuity guards; plus enumerated whole-connection histories (real Listener + Connection + MojangAdapter over TCP against a mock session server, and the real Connection under virtual time) whose hash must be the reference hash of that connection's secret and key",
-         "All enumerated inputs (2^14 / 2^20 counter secrets x 9 server ids x 3 keys, every secret of <= 2 bytes, the published vectors split every way) are compared with an independent implementation; the run fails as machinery error unless negative digests and digests with 1..4 leading zero nibbles all occurred. The hash 'used towards the session service' is also judged where it is used: 8 connections and 3 multi-connection histories (same claimed name, different secrets, sequential and overlapping with a slow session server) over TCP, and 6 connections under virtual time whose Encryption Response comes at once, after 8 s and after 13 h.",
+         "All enumerated inputs (2^14 / 2^20 counter secrets x 21 server ids (incl. leading / trailing / only white space, letter case, NUL, composed and decomposed accents) x 3 keys, every secret of <= 2 bytes, the published vectors split every way, and 60 committed witnesses - found by a 2^35 search with the reference SHA-1 and re-validated with it on every run - of digests with a whole 32-bit word zero or all ones at each position, 5-7 leading zero / F nibbles, and negative digests whose low word is zero) are compared with an independent implementation; the run fails as machinery error unless negative digests and digests with 1..4 leading zero nibbles all occurred. The hash 'used towards the session service' is also judged where it is used: 8 connections and 3 multi-connection histories (same claimed name, different secrets, sequential and overlapping with a slow session server) over TCP, and 6 connections under virtual time whose Encryption Response comes at once, after 8 s and after 13 h.",
          "The independent SHA-1 is validated against FIPS and the published Minecraft vectors at start-up; the edge digest 0x80 00..00 is unreachable through the public function and not covered.", "DESIGN.md §4 C11"),
  "C13": ("enumk", "model_checking",
          "explicit-state, depth-bounded enumeration of all arrival histories over a timing alphabet, each replayed on a fresh real RateLimiter under tokio's paused clock, checked against the stated bounds and by differential deletion of events",
@@ -18,7 +18,7 @@ CHECKS = {
          "tokio's paused clock is the time base; 3 keys, limits 1..3 and d in {8 s, 1.5 s, 0.4 s} stand for 'any'; the size gauge is only written (and judged) at admitted attempts.", "DESIGN.md §4 C13"),
  "C18": ("enumk", "exploration",
          "bounded-exhaustive enumeration of filter chains x strategies x target lists x players x host names, adapters built through the application's from_config (and YAML), against an independent evaluator",
-         "Full product over every single filter shape (1035), each asked about 5 host spellings (pairs differing only in case, consecutively on one adapter instance), every ordered pair from a reduced menu, all strategy configurations and target lists up to 3 with every count spelling; the oracle is written from the statement and accepts either reading where the statement is silent.",
+         "Full product over every single filter shape (1035), under 4 host scopes (none, two anchored patterns, a plain host name), each asked about 9 host spellings (pairs differing only in case, consecutively on one adapter instance; a subdomain, a modded client's marker and the fully qualified spelling of the plain host name), every ordered pair from a reduced menu, all strategy configurations and target lists up to 3 with every count spelling; the oracle is written from the statement and accepts either reading where the statement is silent.",
          "regex crate trusted for the three fixed patterns; readings of absent/non-numeric counts and of an allow filter with no list are both accepted.", "DESIGN.md §4 C18"),
  "C01": ("vsim", "model_checking",
          "explicit-state exploration over client scripts: the full product of handshake intent x encryption response x authentication verdict x routing, each run on the real Connection over a virtual transport, compared with a reference admission model",
@@ -26,23 +26,23 @@ CHECKS = {
          "rsa/aes/hmac crates trusted as primitives; the client byte streams are scripts over the stated alphabet (byte noise is C04).", "DESIGN.md §4 C01"),
  "C02": ("vsim", "model_checking",
          "exhaustive enumeration of cookie variants (every truncation, every single-bit flip, secrets, addresses, ages around every expiry, non-cookie bodies) on the real Connection, against a reference acceptance predicate with an independent HMAC-SHA-256",
-         "About 2 600 connections: each cookie variant forged with the harness's own HMAC, each judged by the Encryption Request flag, the authentication call log and the identity in Login Success; 12 cookie situations are repeated with the authentication service answering after 4 s / 8 s / 40 s and vouching or refusing; three cookies are valid when the connection starts and expired (2.1 s of real time later) when presented. Boundary ages use a clock protocol (repeat if the wall-clock second ticked).",
+         "About 2 600 connections: each cookie variant forged with the harness's own HMAC, each judged by the Encryption Request flag, the authentication call log and the identity in Login Success; 12 cookie situations are repeated with the authentication service answering after 4 s / 8 s / 40 s and vouching or refusing; three cookies are valid when the connection starts and expired (2.1 s of real time later) when presented; four histories present the cookie the router itself issued on a first connection, at once and after its expiry has passed; ten structured secrets (lines, separators, padding) with cookies signed by every piece, prefix, suffix, trimmed form and the empty key. Boundary ages use a clock protocol (repeat if the wall-clock second ticked).",
          "wall clock for cookie ages (cases repeated on a tick); multi-bit forgeries left to the HMAC construction.", "DESIGN.md §4 C02"),
  "C03": ("vsim", "model_checking",
          "full product discovery x filter x strategy outcomes x latencies and client locale x localisation table on the real Connection; argument-flow equalities from adapter call logs and an independent fallback-chain implementation",
-         "Every combination of discovery list (IPv4/IPv6, duplicates, empty, error), filter outcome, strategy outcome and adapter latency, plus 19 locales x 9 tables on both no-target paths, plus schedules in which the Keep Alive of the 16 s tick is only partially accepted by the transport while a routing stage answers; Transfer host compared as an address, Disconnect text compared with an independent implementation of the region -> language -> default chain.",
+         "Every combination of discovery list (IPv4/IPv6, duplicates, empty, error), filter outcome, strategy outcome and adapter latency, plus 19 locales x 9 tables on both no-target paths, plus returning players (Transfer intent with a valid cookie naming each target on offer or a vanished one as the previous destination) x 5 discoveries x 4 filters x 5 strategies, plus schedules in which the Keep Alive of the 16 s tick is only partially accepted by the transport while a routing stage answers; Transfer host compared as an address, Disconnect text compared with an independent implementation of the region -> language -> default chain.",
          "locale keys compared as exact strings; when no table exists in the whole chain only 'one Disconnect, no Transfer' is judged.", "DESIGN.md §4 C03"),
  "C04": ("vsim", "fault_enumeration",
          "fault enumeration: one hostile frame from a structured alphabet injected in each of eleven protocol states of the real Connection (before and after encryption), with panic capture, a counting global allocator and virtual-time termination checks",
-         "About 25 000 (quick) / 100 000 (thorough) runs: outer and inner length prefixes (negative, zero, off-by-one, 2^31-1, over-long), truncation at every offset, invalid UTF-8, enum ordinals, RSA shapes and wrong-size secrets, every tiny frame, well-formed Keep Alive frames with extreme ids (also while one is unanswered); oracles: no panic, returns at the instant of EOF (a handler that keeps polling after end of stream is ended by the harness and reported), largest single allocation <= 2*max+64 KiB, out-of-range length refused at once, malformed input ends in an error with nothing granted.",
+         "About 25 000 (quick) / 100 000 (thorough) runs: outer and inner length prefixes (negative, zero, off-by-one, 2^31-1, over-long), truncation at every offset, invalid UTF-8, enum ordinals, RSA shapes and wrong-size secrets, every tiny frame, well-formed Keep Alive frames with extreme ids (also while one is unanswered), and transport faults (the connection reset at a frame boundary and inside every legal frame of every state; every clientbound frame of a status exchange and of a login with slow routing refused by the transport with Ok(0) or BrokenPipe, at once or after two bytes); oracles: no panic, returns at the instant of EOF (a handler that keeps polling after end of stream is ended by the harness and reported), largest single allocation <= 2*max+64 KiB, out-of-range length refused at once, malformed input ends in an error with nothing granted.",
          "deviation bound 1 (one hostile frame per run); allocation measured per thread while the handler runs.", "DESIGN.md §4 C04"),
  "C05": ("vsim", "model_checking",
          "stateless depth-first exploration of every transport answer (accept any prefix, deliver any prefix, Pending) to the real CipherStream; complete for short messages, deviation-bounded (2/3) for long ones; oracle = independent AES-128-CFB8",
-         "Every poll_read / poll_write answer is a choice point owned by the explorer; all answer sequences for messages up to 7 bytes and all sequences with at most 2 (quick) / 3 (thorough) deviations for messages up to 200 bytes are executed, with the encryption switch before, between or after messages, and with a write that is polled once against a blocked or partially accepting transport and then abandoned before the next message; the wire must be the continuous encryption of exactly the bytes reported written; replays are checked for determinism.",
-         "raw AES block function shared with the implementation; transport errors not in the alphabet.", "DESIGN.md §4 C05"),
+         "Every poll_read / poll_write answer is a choice point owned by the explorer; all answer sequences for messages up to 7 bytes and all sequences with at most 2 (quick) / 3 (thorough) deviations for messages up to 200 bytes are executed, with the encryption switch before, between or after messages, with a write that is polled once against a blocked or partially accepting transport and then abandoned before the next message, with gathered writes (write_vectored of three slices; the transport supports them) and with read_buf through take into one growing Vec as the connection does; the wire must be the continuous encryption of exactly the bytes reported written; replays are checked for determinism.",
+         "raw AES block function shared with the implementation; transport errors are C04's subject.", "DESIGN.md §4 C05"),
  "C06": ("vsim", "model_checking",
          "explicit-state breadth-first search over histories of serverbound packet kinds (a state is the history, replayed on a fresh real Connection), against a reference protocol automaton",
-         "Breadth-first over 30 packet kinds (every id of every phase, six next-state values, three ping payloads, Encryption Responses whose verify token is empty / a 16- or 31-byte prefix / extended), expanding exactly the histories after which the implementation still waits, to depth 9 / 11, for 10 / 15 configurations (secret, status answer, discovery latency 0 / 12 / 15 / 17 s, one-byte transport, a Keep Alive only partially accepted while discovery answers); the automaton predicts the exact reply sequence in handshake, status and login phases and the reply set/order and routing constraints in the configuration phase.",
+         "Breadth-first over 30 packet kinds (every id of every phase, six next-state values, three ping payloads, Encryption Responses whose verify token is empty / a 16- or 31-byte prefix / extended), expanding exactly the histories after which the implementation still waits, to depth 9 / 11, for 12 / 17 configurations (secret, status answer, discovery latency 0 / 12 / 15 / 17 s, one-byte transport, a Keep Alive only partially accepted while discovery answers, the whole history sent in bursts that arrive coalesced); the automaton predicts the exact reply sequence in handshake, status and login phases and the reply set/order and routing constraints in the configuration phase.",
          "frames that match the expected id but carry trailing bytes may be read either way; tolerated configuration-phase packets are not fixed by the statement.", "DESIGN.md §4 C06"),
  "C07": ("vsim", "model_checking",
          "exhaustive enumeration of a timing alphabet (adapter latencies, Client Information delay, echo policy, login duration) under tokio's paused clock on the real Connection; oracle read off the timestamped wire log and the client's echo log",
@@ -50,7 +50,7 @@ CHECKS = {
          "real-valued time represented by +-1 ms neighbours of the period; events exactly on a tick are not judged.", "DESIGN.md §4 C07"),
  "C08": ("vsim", "model_checking",
          "deviation-bounded differential exploration of transport schedules on the real Connection: a segment boundary before every byte of the client's stream x pause classes aligned to the baseline's timer events, partial/delayed acceptance of every clientbound frame, one-byte segmentation, all 64 patterns of unbiased select draws; every run compared with the unsegmented baseline",
-         "Bound 1 complete for all classes in 8 scenarios (about 40 000 schedules); bound 2 for the stated pairs (thorough, about 2 million). The observable trace (clientbound packets other than keep-alives, service calls with arguments, outcome) must equal the baseline's, frames must arrive whole, and bytes that arrived before the end must have been consumed.",
+         "Bound 1 complete for all classes in 11 scenarios (about 60 000 schedules; the classes include the coalesced arrival of every single step with the one before it, and two scenarios in which everything that does not need the server's answer is sent in one burst and must behave as the lock-step run of the same bytes); bound 2 for the stated pairs (thorough, about 2 million). The observable trace (clientbound packets other than keep-alives, service calls with arguments, outcome) must equal the baseline's, frames must arrive whole, and bytes that arrived before the end must have been consumed.",
          "pauses are classes relative to the baseline timeline; runs in which the pause makes the client itself miss a keep-alive deadline are counted and not judged; tokio built with --cfg tokio_unstable for seeded select draws.", "DESIGN.md §4 C08"),
  "C10": ("vsim", "model_checking",
          "enumeration of two-connection histories on the real Connection (authenticate and get transferred, then reconnect with what was stored); issued cookies opened with an independent HMAC-SHA-256 and JSON reader",
@@ -58,31 +58,31 @@ CHECKS = {
          "refresh of the cookie on the cookie-authenticated path is not judged; timestamps checked against the wall-clock bracket of the run.", "DESIGN.md §4 C10"),
  "C12": ("netsim", "exploration",
          "bounded-exhaustive enumeration of claimed user names over a 24-symbol alphabet of URL-significant characters; the real MojangAdapter's request line is captured by a loopback HTTP mock (verif-hooks origin override) and parsed independently",
-         "Every name X, aXb (and every XY, pXYq in thorough) over the alphabet plus targeted injection payloads, for two server ids and shared secrets rotating over 30 digest shapes (sign x last byte x leading zeros): the raw request line must have the fixed path, exactly one username parameter decoding to the claimed name and exactly one serverId equal to the independently computed hash, nothing else. 8 whole connections and 3 multi-connection histories (same name, different secrets, sequential and overlapping) through the real Listener and Connection must each cause exactly one request with their own name and hash.",
+         "Every name X, aXb (and every XY, pXYq in thorough) over the alphabet plus targeted injection payloads, for two server ids and shared secrets rotating over 30 digest shapes (sign x last byte x leading zeros): the raw request line must have the fixed path, exactly one username parameter decoding to the claimed name and exactly one serverId equal to the independently computed hash, nothing else. 8 whole connections and 3 multi-connection histories (same name, different secrets, sequential and overlapping) through the real Listener and Connection must each cause exactly one request with their own name and hash; 12 names x 9 answer plans of a failing session server (5xx, 4xx, 204, dropped connections) where every request that arrives, first or repeated, is judged.",
          "needs the add-only verif-hooks feature of passage-adapters-http; reqwest / url crates perform the encoding under test; TLS to the real session server is not exercised.", "DESIGN.md §4 C12"),
  "C14": ("netsim", "exploration",
          "finite product of operator configurations x client behaviours against the application's real entry point passage::start(config) in child processes (loopback TCP, SIGINT), with real-time deadlines",
-         "One child process per configuration (max_packet_length, cookie expiry, timeout, PROXY mode); handshake frames of length max-1/max/max+1/max+50 and unterminated length prefixes, cookies just inside / outside the expiry and under another secret, a genuine cookie followed by its tag on another body, a cookie that expires while the client stalls, a 24 MiB status answer the client does not read until after the deadline, and 8-10 client behaviours (silent, dribbling, stopping at each protocol step, late PROXY header) each of which must be disconnected by timeout + 1.5 s; the process must exit cleanly on SIGINT.",
+         "One child process per configuration (max_packet_length, cookie expiry, timeout, PROXY mode); handshake frames of length max-1/max/max+1/max+50 and unterminated length prefixes, cookies just inside / outside the expiry, under another secret and under each of 7 pieces of the configured (two-line, newline-terminated) secret, a genuine cookie followed by its tag on another body, a cookie that expires while the client stalls, a 24 MiB status answer the client does not read until after the deadline, and 8-10 client behaviours (silent, dribbling, stopping at each protocol step, late PROXY header) each of which must be disconnected by timeout + 1.5 s; the process must exit cleanly on SIGINT.",
          "real time with a 1.5 s allowance (closing earlier is never a violation); 'keeps answering keep-alives while routing never completes' is covered under virtual time in C07 and by the gated backend in C17.", "DESIGN.md §4 C14"),
  "C15": ("netsim", "model_checking",
          "enumeration of all arrival histories (depth 3/4) of real TCP connections with PROXY v1/v2 headers over 13+ connection kinds (incl. headers split across segments and a source equal to the load balancer) x PROXY mode (v1+v2, v1 only, v2 only, neither, off) x limiter, against the real Listener (and passage::start), with a reference model of the effective address and a shadow instance of the real limiter; every verdict at a barrier",
-         "About 4 700 histories / 13 000 connections (quick), 66 000 histories (thorough): served exactly when the shadow limiter admits the effective address, refused or header-less connections receive no byte and cost no budget, backend services and issued cookies see the announced source; configuration wiring is covered by histories through passage::start for v1-only / v2-only / both / off.",
+         "About 4 700 histories / 13 000 connections (quick), 66 000 histories (thorough): served exactly when the shadow limiter admits the effective address, refused or header-less connections receive no byte and cost no budget, backend services and issued cookies see the announced source; configuration wiring is covered by histories through passage::start for v1-only / v2-only / both / off; 8 histories with a one second window in which a header arrives 2.5 s after its connection was accepted (the budget is charged at admission time).",
          "loopback scheduling is not controlled (verdicts at barriers, 2 s deadlines); address-less headers (UNKNOWN / LOCAL) may be closed or treated as the peer.", "DESIGN.md §4 C15"),
  "C16": ("netsim", "model_checking",
-         "enumeration of stall schedules: every stall point of 1, 2 or 9 (thorough: 40) hostile clients x PROXY on/off x limiter on/off against the real Listener, a well-behaved client with another effective address must be served within one fixed bound",
-         "72 (quick) / 144 (thorough) schedules: hostile sockets are held open at each stall point (silent, inside the PROXY header, mid-frame, after each login step, in configuration never echoing, slow garbage) while the well-behaved client performs a status exchange (and a full login); the bound (2 s) is the same for all schedules; with PROXY on the well-behaved client arrives through the same load-balancer peer as the hostile ones.",
+         "enumeration of stall schedules: every stall point of 1, 2 or 9 (thorough: 40) hostile clients x PROXY on/off x limiter on/off, and crowds of 600 (thorough: up to 3000) held connections, against the real Listener, a well-behaved client with another effective address must be served within one fixed bound",
+         "79 (quick) / 165 (thorough) schedules: hostile sockets are held open at each stall point (silent, inside the PROXY header, mid-frame, after each login step, in configuration never echoing, slow garbage) while the well-behaved client performs a status exchange (and a full login); the bound (2 s) is the same for all schedules; with PROXY on the well-behaved client arrives through the same load-balancer peer as the hostile ones.",
          "real time on loopback, 'never' is a 2 s deadline where the correct behaviour takes milliseconds.", "DESIGN.md §4 C16"),
  "C17": ("netsim", "model_checking",
-         "enumeration of shutdown schedules: placements of one or two in-flight connections over 7 progress points x the moment a new connection is attempted x PROXY on/off, plus a drain that lasts 11.5 s, against the real Listener and passage::start + SIGINT; observations at barriers",
-         "95 (quick) / 300 (thorough) schedules: the listener must not return while an accepted connection is unfinished, in-flight connections receive exactly the packets of an undisturbed login including the Transfer, a connection opened after the stop receives no byte, listen() returns within 2 s of the last connection finishing (or within the connection timeout for a non-cooperating client).",
+         "enumeration of shutdown schedules: placements of one or two in-flight connections over 7 progress points x the moment a new connection is attempted x PROXY on/off, plus a drain that lasts 11.5 s and a third in-flight connection that ends badly during the drain (backend panics or fails, garbage, hang-up), against the real Listener and passage::start + SIGINT; observations at barriers",
+         "103 (quick) / 324 (thorough) schedules: the listener must not return while an accepted connection is unfinished, in-flight connections receive exactly the packets of an undisturbed login including the Transfer, a connection opened after the stop receives no byte, listen() returns within 2 s of the last connection finishing (or within the connection timeout for a non-cooperating client).",
          "the slow backend is a semaphore (no real time); the stop-vs-accept tie inside one poll of the accept loop cannot be produced on a single-threaded runtime.", "DESIGN.md §4 C17"),
  "C19": ("netsim", "exploration",
          "bounded-exhaustive enumeration of target shapes through the real gRPC discovery and strategy adapters against an in-process tonic server generated from the repository's .proto files, in all three directions",
-         "About 700 (quick) / 4 000 (thorough) RPCs: host text x port x identifier x metadata in discovery replies, 11 histories of consecutive replies on one adapter instance (a malformed reply repeated, between and after good ones), candidate lists x reply policy (none, echo of the i-th candidate exactly as received, foreign target of every shape) x client/server address x player in select(); identity on (identifier, socket address, metadata) for well-formed addresses, error for malformed ones.",
+         "About 700 (quick) / 4 000 (thorough) RPCs: host text x port x identifier x metadata in discovery replies, 11 histories of consecutive replies on one adapter instance (a malformed reply repeated, between and after good ones), candidate lists x reply policy (none, echo of the i-th candidate exactly as received, foreign target of every shape) x client/server address x player in select(), 16 histories of 4 select() calls on one adapter instance whose candidate lists differ only in metadata values, metadata keys, one address, one identifier, order or length; identity on (identifier, socket address, metadata) for well-formed addresses, error for malformed ones.",
          "tonic/prost trusted for message coding; DNS-name hosts only checked for 'no panic'; bracketed/scoped IPv6 literals may be rejected or accepted unchanged.", "DESIGN.md §4 C19"),
  "C20": ("netsim", "model_checking",
-         "enumeration of all watch-event histories (depth 2/3/4) over 20 events served by a mock Kubernetes LIST/WATCH API to the real Agones adapter (kube watcher and backoff unmodified); marker-object barrier after every event; reference map of last observed objects",
-         "About 700 (quick) / 20 000 (thorough) histories from 3 initial lists: ADDED/MODIFIED in 6 shapes, DELETED, BOOKMARK, clean watch close, 410 Gone with re-list, changes made while the watch is down, and a server-side watch failure alone or written together with the preceding event; after every event the offered set must equal exactly the objects whose last observed state is Ready/Allocated and convertible, with current address, first port and metadata.",
+         "enumeration of all watch-event histories (depth 2/3/4) over 21 events served by a mock Kubernetes LIST/WATCH API to the real Agones adapter (kube watcher and backoff unmodified); marker-object barrier after every event; reference map of last observed objects",
+         "About 700 (quick) / 20 000 (thorough) histories from 3 initial lists: ADDED/MODIFIED in 7 shapes (one with most metadata taken off), DELETED, BOOKMARK, clean watch close, 410 Gone with re-list, changes made while the watch is down, and a server-side watch failure alone or written together with the preceding event; after every event the offered set must equal exactly the objects whose last observed state is Ready/Allocated and convertible, with current address, first port and metadata, and no metadata key that only an earlier version of the object carried.",
          "hand-written HTTP/1.1 mock of the Kubernetes API; event application order is the stream order (barrier argument); real time only in 5-8 s barrier deadlines.", "DESIGN.md §4 C20"),
 }
 
